@@ -67,6 +67,9 @@ Record st := { tr : transport; maxsz : Z; ch : chans; nt : notif; sv : srv;
 (* the negotiated maximum: the client asks for QB_MAX(max, sizeof(struct qb_ipc_connection_response)), the server
    grants QB_MAX(request, its enforced minimum (0 unless qb_ipcs_enforce_buffer_size was called)) *)
 Definition negotiate (requested : Z) : Z := Z.max requested IPC_CONNRESP_SIZE.
+(* handle_new_connection: max_buffer_size = QB_MAX(req->max_msg_size, s->max_buffer_size); enforced = 0 when
+   qb_ipcs_enforce_buffer_size was never called *)
+Definition negotiate_enforced (requested enforced : Z) : Z := Z.max (negotiate requested) enforced.
 
 Definition init (t : transport) (mx : Z) : st :=
   {| tr := t; maxsz := mx;
